@@ -207,7 +207,7 @@ func (boundary) Describe() core.EngineInfo {
 		Real:       []string{"goatlang NewFunc adapters, call/callReady, mkFunc, newMethod, VM.Call/Func/Set/Get, constructors and accessors, slices.SortFunc native"},
 		Stubs:      []string{"host natives are the simulator's (they are the seam)", "SimDisk serves the script"},
 		Assumes:    []string{"an untyped constant passed to a native arrives as goatlang's untyped number: payload compared, type not", "scalars, nil and slices of scalars only", "natives that break their own declared result count are host bugs and are not injected"},
-		ProbesWant: []string{"form_1", "form_2", "form_3", "form_4", "form_5", "form_6", "ctx_stmt", "ctx_stmtret", "ctx_assign", "ctx_expr", "ctx_nested", "ctx_fnvar", "ctx_loop", "ctx_viafn", "ctx_method", "ctx_objmethod", "ctx_reenter", "ctx_recurse", "ctx_sort", "hostcall_swap", "hostcall_variadic", "hostcall_reuse", "hostcall_redefine", "hostcall_consts", "hostcall_structs", "big_literal_arg", "round_2", "fault_propagated", "fault_handled", "hostcall_ok", "hostcall_too_many", "spread"},
+		ProbesWant: []string{"form_1", "form_2", "form_3", "form_4", "form_5", "form_6", "ctx_stmt", "ctx_stmtret", "ctx_swstmt", "ctx_litret", "hostcall_tryseq", "ctx_assign", "ctx_expr", "ctx_nested", "ctx_fnvar", "ctx_loop", "ctx_viafn", "ctx_method", "ctx_objmethod", "ctx_reenter", "ctx_recurse", "ctx_sort", "hostcall_swap", "hostcall_variadic", "hostcall_reuse", "hostcall_redefine", "hostcall_consts", "hostcall_structs", "big_literal_arg", "round_2", "fault_propagated", "fault_handled", "hostcall_ok", "hostcall_too_many", "spread"},
 	}
 }
 
@@ -288,12 +288,12 @@ func (e boundary) genPlan(r *core.PRNG) *BPlan {
 		ctx := core.Pick(r, ctxs)
 		ni := r.Intn(len(p.Natives))
 		n := p.Natives[ni]
-		if ctx == "nestedarg" || ctx == "expr" || ctx == "viafn" || ctx == "method" || ctx == "callback" || ctx == "objmethod" {
+		if ctx == "nestedarg" || ctx == "expr" || ctx == "viafn" || ctx == "method" || ctx == "callback" || ctx == "objmethod" || ctx == "litret" {
 			// needs at least one result
 			found := -1
 			for try := 0; try < 8; try++ {
 				c := r.Intn(len(p.Natives))
-				if p.Natives[c].Rets >= 1 && (ctx != "expr" || p.Natives[c].Numeric) && (ctx == "expr" || ctx == "viafn" || p.Natives[c].Form >= 3) {
+				if p.Natives[c].Rets >= 1 && (ctx != "expr" || p.Natives[c].Numeric) && (ctx == "expr" || ctx == "viafn" || ctx == "litret" || p.Natives[c].Form >= 3) {
 					found = c
 					break
 				}
@@ -331,6 +331,8 @@ func (e boundary) genPlan(r *core.PRNG) *BPlan {
 			p.Sites[idx].Want = r.Intn(n.Rets + 1)
 		case "expr", "nestedarg", "viafn", "method", "callback", "objmethod":
 			p.Sites[idx].Want = 1
+		case "litret":
+			p.Sites[idx].Want = n.Rets
 		case "fnvar":
 			if n.Rets >= 1 {
 				p.Sites[idx].Want = 1
@@ -359,7 +361,7 @@ func (e boundary) genPlan(r *core.PRNG) *BPlan {
 	}
 	ns := 2 + r.Intn(10)
 	for i := 0; i < ns; i++ {
-		gen([]string{"stmt", "stmtret", "assign", "assign", "expr", "nested", "fnvar", "loop", "viafn", "method", "objmethod", "objmethod", "reenter", "recurse", "sort"}, 0)
+		gen([]string{"stmt", "stmtret", "swstmt", "litret", "assign", "assign", "expr", "nested", "fnvar", "loop", "viafn", "method", "objmethod", "objmethod", "reenter", "recurse", "sort"}, 0)
 	}
 	if r.Chance(1, 2) {
 		nf := 1 + r.Intn(2)
@@ -400,6 +402,9 @@ func (e boundary) genPlan(r *core.PRNG) *BPlan {
 		}
 		if r.Chance(1, 8) {
 			h = BHostCall{Fn: "structs", B: r.Intn(1000000)}
+		}
+		if r.Chance(1, 8) {
+			h = BHostCall{Fn: "tryseq", B: r.Intn(1 << 14)}
 		}
 		np := h.A
 		if h.Fn == "redefine" {
@@ -519,6 +524,33 @@ func (p *BPlan) render() string {
 	for i, k := range bConsts {
 		ln("func k%d() (%s) { %s }", i, k.types, k.body)
 	}
+	// natives of the (value, err) shape: variables, a package variable and a struct field receive an
+	// error object at some calls and nil at others
+	ln("var GE any")
+	ln("type EH struct { E any }")
+	ln("func tryseq() {")
+	ln("\tv, err := host.Try(0)")
+	ln("\thost.TryObs(0, v, err == nil)")
+	for i := 1; i < 4; i++ {
+		ln("\tv, err = host.Try(%d)", i)
+		ln("\thost.TryObs(%d, v, err == nil)", i)
+	}
+	ln("\tfor i := 4; i < 8; i++ {")
+	ln("\t\tw, e := host.Try(i)")
+	ln("\t\thost.TryObs(i, w, e == nil)")
+	ln("\t}")
+	ln("\th := &EH{}")
+	ln("\tfor i := 8; i < 11; i++ {")
+	ln("\t\tw, e := host.Try(i)")
+	ln("\t\tGE = e")
+	ln("\t\thost.TryObs(i, w, GE == nil)")
+	ln("\t}")
+	ln("\tfor i := 11; i < 14; i++ {")
+	ln("\t\tw, e := host.Try(i)")
+	ln("\t\th.E = e")
+	ln("\t\thost.TryObs(i, w, h.E == nil)")
+	ln("\t}")
+	ln("}")
 	ln("type T2 struct { A int; B string; C float64 }")
 	ln("func setA(t *T2, v int) { t.A = v }")
 	ln("func sumT2(t *T2) int { return t.A + len(t.B) }")
@@ -535,6 +567,22 @@ func (p *BPlan) render() string {
 			// the native as a method of a wrapped host object held in a local variable (a parameter)
 			call := strings.Replace(p.callExpr(si, "", ""), fmt.Sprintf("host.N%d(", s.Native), fmt.Sprintf("o.M%d(", s.Native), 1)
 			ln("func om%d(o any) any { host.At(%d); G = %d; return %s }", si, si, si, call)
+		case "swstmt":
+			// the same, with the call statement directly inside a switch case
+			ln("func ss%d(k int) any { host.At(%d); G = %d; switch k { case 1: %s; default: G = G + 0 }; return 12345 }", si, si, si, p.callExpr(si, "", ""))
+		case "litret":
+			// a function literal whose result count differs from the enclosing function's returns
+			// the native's results through a tail call
+			outer, oret := "any", "return 0"
+			if s.Want == 1 {
+				outer, oret = "(any, any)", "return 0, 0"
+			}
+			var rs []string
+			for i := 0; i < s.Want; i++ {
+				rs = append(rs, fmt.Sprintf("a%d", i))
+			}
+			lt := strings.TrimSuffix(strings.Repeat("any, ", s.Want), ", ")
+			ln("func lr%d() %s { host.At(%d); G = %d; f := func() (%s) { return %s }; %s := f(); host.Obs(%d, %s); %s }", si, outer, si, si, lt, p.callExpr(si, "", ""), strings.Join(rs, ", "), si, strings.Join(rs, ", "), oret)
 		case "stmtret":
 			// a native called as a statement inside a value-returning function: its
 			// results must not leak into the function's own result
@@ -562,6 +610,11 @@ func (p *BPlan) render() string {
 		case "stmtret":
 			ln("\tz%d := sr%d()", si, si)
 			ln("\thost.Obs(%d, z%d)", si, si)
+		case "swstmt":
+			ln("\tz%d := ss%d(1)", si, si)
+			ln("\thost.Obs(%d, z%d)", si, si)
+		case "litret":
+			ln("\tlr%d()", si)
 		case "assign":
 			if s.Want == 0 {
 				ln(pre + p.callExpr(si, "", ""))
@@ -643,6 +696,8 @@ type bRun struct {
 	nativeVals map[int]goatlang.Value
 	handledNow bool // a nested error was handled during the current round
 	forms      map[string]bool
+	tryMask    int // tryseq: bit i set = the i-th call of host.Try returns an error object
+	trySeen    int
 }
 
 const bFaultMsg = "INJECTED-NATIVE-FAULT-7f3a"
@@ -810,6 +865,24 @@ func (run *bRun) natives(vm *goatlang.VM) {
 		}
 		return bPool[i].value()
 	}))
+	vm.Set("host.Try", goatlang.NewFunc(1, 2, func(v *goatlang.VM, a []goatlang.Value) []goatlang.Value {
+		i := a[0].Int()
+		if run.tryMask>>uint(i)&1 == 1 {
+			if i%2 == 0 {
+				return []goatlang.Value{goatlang.Int(i), goatlang.Error(fmt.Errorf("e%d", i))}
+			}
+			return []goatlang.Value{goatlang.Int(i), goatlang.Wrap(&bObj{run: run})}
+		}
+		return []goatlang.Value{goatlang.Int(i), goatlang.Nil()}
+	}))
+	vm.Set("host.TryObs", goatlang.NewFunc(3, 0, func(v *goatlang.VM, a []goatlang.Value) {
+		i := a[0].Int()
+		run.trySeen++
+		wantNil := run.tryMask>>uint(i)&1 == 0
+		if a[1].Int() != i || a[2].Bool() != wantNil {
+			run.fail("C19/rets", "nil-after-object", "call %d of the (value, err) native returned (%d, %s); the script sees value %s and err == nil is %v (error objects so far at calls %b)", i, i, map[bool]string{true: "nil", false: "an error object"}[wantNil], describe(a[1]), a[2].Bool(), run.tryMask&(1<<uint(i+1)-1))
+		}
+	}))
 	vm.Set("host.Obs", goatlang.NewFunc(2, 0, func(v *goatlang.VM, a []goatlang.Value, va ...goatlang.Value) []goatlang.Value {
 		run.obs(a[0].Int(), va)
 		return nil
@@ -911,8 +984,12 @@ func (run *bRun) obs(site int, got []goatlang.Value) {
 		if len(rv) > 0 {
 			want = []BVal{{K: "int32", I: 10 + rv[0].I*3 - 1}}
 		}
-	case "stmtret":
+	case "stmtret", "swstmt":
 		want = []BVal{{K: "int32", I: 12345}}
+	case "litret":
+		if s.Want <= len(rv) && s.Want > 0 {
+			want = rv[:s.Want]
+		}
 	case "nested", "fnvar", "viafn", "method", "objmethod":
 		if len(rv) > 0 {
 			want = rv[:1]
@@ -1116,6 +1193,16 @@ func (run *bRun) hostCall(hc *BHostCall) {
 	}
 	if hc.Fn == "structs" {
 		run.hostStructs(hc)
+		return
+	}
+	if hc.Fn == "tryseq" {
+		run.h.C.Inc("hostcall_tryseq")
+		run.tryMask, run.trySeen = hc.B, 0
+		if _, err := run.h.Call("main.tryseq", 0); err != nil {
+			run.fail("C19/count", "tryseq-failed", "Call(main.tryseq) failed: %v", firstLine(err.Error()))
+		} else if run.trySeen != 14 && run.res.OK() {
+			run.fail("C19/rets", "tryseq-incomplete", "main.tryseq reported %d of 14 calls", run.trySeen)
+		}
 		return
 	}
 	if hc.Fn == "reuse" {
